@@ -12,7 +12,7 @@ CONSTANTS
   MaxIF = 3
   MinF = 1
   MaxDepth = 2
-  Feat = {"bits", "typedef", "nestarr", "var", "cnt", "bound", "leb"}
+  Feat = {"bits", "typedef", "nestarr", "vararr", "var", "cnt", "bound", "leb"}
   BitSplits <- BitSplitsFull
   PS = {32, 64}
   VCs = {"zero", "pat", "neg", "min", "max"}
